@@ -1,5 +1,6 @@
 import FlodymProofs.Lemmas.Shares
 import FlodymProofs.Lemmas.GetSet
+import FlodymProofs.Props.C05
 /-!
 # C04 — results do not depend on the storage order of dimensions
 
@@ -174,6 +175,44 @@ theorem getitem_order_independent (x x' : FArr α) (hx : WF x) (hx' : WF x')
   obtain ⟨e0, he, he'⟩ := hsame e
   rw [h4 e hv, h4' e hv', he, he']
   exact hxx.2 e0
+
+/-- `target[key] = source`: what is written does not depend on the storage order of the *source*:
+a source with permuted dimensions (values transposed accordingly) leaves the very same array behind
+(the target's own dims and order are untouched, see C05 `setitem_array_by_label`) -/
+theorem setitem_source_order_independent [AddCommMonoid α] (x y y' : FArr α) (hx : WF x) (hy : WF y)
+    (hy' : WF y') (kvs : List (String × Sel)) (S' : List DSel)
+    (hdec : Decodes x.dims kvs (x.dims.map fun _ => DSel.keep) S') (hok : SelsOK x.dims S')
+    (hinj : SelsInj S') (hsub : ∀ d ∈ outDims x.dims S', d ∈ y.dims) (hyy : LabelEq y y') :
+    ∃ r r', x.setitem? (.dict kvs) (.arr y) = some r ∧ x.setitem? (.dict kvs) (.arr y') = some r' ∧
+      r.dims = x.dims ∧ r'.dims = x.dims ∧ ∀ idx, r'.values.get idx = r.values.get idx := by
+  have hsub' : ∀ d ∈ outDims x.dims S', d ∈ y'.dims := fun d hd => hyy.1.mem_iff.mpr (hsub d hd)
+  obtain ⟨r, h1, h2, _, h4, h5⟩ := setitem_arr_spec x y hx hy kvs S' hdec hok hinj hsub
+  obtain ⟨r', h1', h2', _, h4', h5'⟩ := setitem_arr_spec x y' hx hy' kvs S' hdec hok hinj hsub'
+  refine ⟨r, r', h1, h1', h2, h2', fun idx => ?_⟩
+  by_cases hex : ∃ e, Valid (outDims x.dims S') e ∧ liftIdx x.dims S' e = idx
+  · obtain ⟨e, hve, rfl⟩ := hex
+    rw [h4 e hve, h4' e hve]
+    exact margin_labelEq y y' hy' hyy _ _ (fun _ => Iff.rfl) e
+  · have hno : ∀ e, Valid (outDims x.dims S') e → liftIdx x.dims S' e ≠ idx :=
+      fun e hve h => hex ⟨e, hve, h⟩
+    rw [h5 idx hno, h5' idx hno]
+
+/-- whole-array assignment `target[...] = source`: neither the storage order of the pre-declared
+*target* nor that of the source matters — two targets declared over the same dimensions in different
+orders hold the same entries under the same labels afterwards -/
+theorem setitem_whole_order_independent [AddCommMonoid α] (x x' y y' : FArr α) (hx : WF x) (hx' : WF x')
+    (hy : WF y) (hy' : WF y') (hsub : ∀ d ∈ x.dims, d ∈ y.dims)
+    (hxx : x'.dims.Perm x.dims) (hyy : LabelEq y y') :
+    ∃ r r', x.setitem? .ellipsis (.arr y) = some r ∧ x'.setitem? .ellipsis (.arr y') = some r' ∧
+      r.dims = x.dims ∧ r'.dims = x'.dims ∧ ∀ e, Valid x.dims e → r'.at e = r.at e := by
+  have hsub' : ∀ d ∈ x'.dims, d ∈ y'.dims :=
+    fun d hd => hyy.1.mem_iff.mpr (hsub d (hxx.mem_iff.mp hd))
+  obtain ⟨r, h1, h2, _, h4⟩ := C05.setitem_whole_array x y hx hy hsub
+  obtain ⟨r', h1', h2', _, h4'⟩ := C05.setitem_whole_array x' y' hx' hy' hsub'
+  refine ⟨r, r', h1, h1', h2, h2', fun e hve => ?_⟩
+  have hve' : Valid x'.dims e := fun d hd => hve d (hxx.mem_iff.mp hd)
+  rw [h4 e hve, h4' e hve']
+  exact margin_labelEq y y' hy' hyy _ _ (fun c => (mem_letters_perm hxx c).symm) e
 
 /-! ### non-vacuity: a transposed pair with equal lengths -/
 def dA : Dim := { letter := 'a', name := "aa", items := [.int 1, .int 2] }
